@@ -132,6 +132,26 @@ Theorem C11_linf_proj_bias_is_projection :
 Proof. exact (@linf_proj_bias_is_proj). Qed.
 Print Assumptions C11_linf_proj_bias_is_projection.
 
+(* the L1Reg node itself: L1Reg(lamda)(alpha, y) = prox of x |-> sum_i alpha_i * lamda * |x_i| (alpha scalar or array) *)
+Theorem C11_l1reg_node_is_prox :
+  forall (El : Elem RR) (LW : ElemLaws El) s lamda (alpha : sv R) (y : list El),
+    (forall i, 0 <= lamda * sv_get 0 alpha i) ->
+    exists p, @apply RR El (@L1Reg RR El s lamda) alpha y = Some p /\ length p = length y /\
+      prox_at LW (length y) (fun _ => True)
+              (fun x => sumn (length y) (fun i => sv_get 0 alpha i * (lamda * eabs (x i)))) (fn y) (fn p).
+Proof. exact (@l1reg_model_prox). Qed.
+Print Assumptions C11_l1reg_node_is_prox.
+
+(* the L2Proj node with bias b (axes = None): projection onto the ball of radius eps centred at b *)
+Theorem C11_l2proj_node_is_projection :
+  forall (El : Elem RR) (LW : ElemLaws El) s eps (b : sv El) (alpha : sv R) (y : list El), 0 < eps ->
+    exists p, @apply RR El (@L2Proj RR El s eps b None) alpha y = Some p /\ length p = length y /\
+      proj_at LW (length y)
+        (fun z => dotn LW (length y) (fsub z (fun i => sv_get e0 b i)) (fsub z (fun i => sv_get e0 b i)) <= eps * eps)
+        (fn y) (fn p).
+Proof. exact (@l2proj_model_proj). Qed.
+Print Assumptions C11_l2proj_node_is_projection.
+
 (* ------------------------------------------------------------------ projections in general *)
 Theorem C11_feasible_point_is_its_projection :
   forall (El : Elem RR) (LW : ElemLaws El) n (S : (nat -> El) -> Prop) (y : nat -> El), S y -> proj_at LW n S y y.
@@ -147,7 +167,7 @@ Print Assumptions C11_projection_idempotent.
 (* ------------------------------------------------------------------ l1 ball (Duchi et al.) *)
 (* feasible input is returned as it is (same list, hence same shape) *)
 Theorem C11_l1_proj_feasible_identity :
-  forall (El : Elem RR) (LW : ElemLaws El) eps (y : list El),
+  forall (El : Elem RR) eps (y : list El),
     @rsum RR (map eabs y) < eps -> @l1_proj RR El eps y = Some y.
 Proof. exact (@l1_proj_feasible). Qed.
 Print Assumptions C11_l1_proj_feasible_identity.
@@ -155,7 +175,7 @@ Print Assumptions C11_l1_proj_feasible_identity.
 (* otherwise the sort/cumsum/last-positive search never fails and returns soft_thresh(theta, y) with the
    KKT certificate theta >= 0, sum_i (|y_i| - theta)_+ = eps *)
 Theorem C11_l1_proj_kkt_certificate :
-  forall (El : Elem RR) (LW : ElemLaws El) eps (y : list El),
+  forall (El : Elem RR) eps (y : list El),
     0 < eps -> eps <= @rsum RR (map eabs y) ->
     exists th, 0 <= th /\ cert (length y) (fn y) th = eps /\
                @l1_proj RR El eps y = Some (@soft_thresh RR El (SS th) y).
